@@ -325,6 +325,58 @@ def big_sparse_case(r, fn):
     return case
 
 
+def over256_case(r, fn):
+    """257..300 nodes AND a supplied start partition: above 256 two equal Python integers are no longer the same object (an
+    `is` / `is not` between len(ci) and n, or between two len()s, changes its answer), above 255 a uint8 count wraps. About
+    forty connected nodes - half among the lowest numbers, half among the highest (several numbered >= 257) - in three planted
+    groups that straddle both ends, half-integer weights (not integer-valued, see big_sparse_case; some negative between the
+    groups for the signed routines, one-way for the directed one); every other node isolated (never moved).  The start partition
+    has 3..5 groups over ALL nodes with non-contiguous labels, unrelated to the planted groups: the optimiser has to move most of
+    the connected nodes.  Too large for the model: `_nomodel`, direct oracle only."""
+    R = ROUTINES[fn]
+    n = r.randint(257, 300)
+    low = r.sample(range(0, 60), 20)
+    high = r.sample(range(n - 30, n), 20)
+    if not any(v >= 257 for v in high):
+        high[0] = n - 1
+    nodes = low + high
+    r.shuffle(nodes)
+    grp = {v: i % 3 for i, v in enumerate(nodes)}
+    directed = R.directed or (fn == 'community_louvain' and r.random() < 0.3)
+    W = [[0] * n for _ in range(n)]
+    desc = {}
+    for a in range(len(nodes)):
+        for b in range(a + 1, len(nodes)):
+            i, j = nodes[a], nodes[b]
+            same = grp[i] == grp[j]
+            if r.random() < (0.55 if same else 0.06):
+                w = F(r.choice([1, 3, 5]), 2)
+                if R.signed and not same and r.random() < 0.6:
+                    w = -w
+                if directed and r.random() < 0.5:
+                    if r.random() < 0.5:
+                        i, j = j, i
+                    W[i][j] = w
+                    desc['%d>%d' % (i, j)] = float(w)
+                else:
+                    W[i][j] = W[j][i] = w
+                    desc['%d-%d' % (min(i, j), max(i, j))] = float(w)
+    k = r.randint(3, 5)
+    labels = r.sample([2, 5, 10, 11, 40, 100, 1000], k)
+    ci = [r.choice(labels) for _ in range(n)]
+    g = r.choice([F(1), F(1), F(3, 4), F(5, 4)])
+    case = {'fn': fn, 'n': n, 'family': 'over-256-with-ci',
+            'W': 'zeros(%d,%d) + entries (a-b symmetric, a>b one-way) %s' % (n, n, desc), 'gamma': str(g), '_W': W, '_g': g,
+            'seed': r.randrange(1 << 30), 'weights': 'dyadic', '_nomodel': True, 'ci': ci, 'ci_kind': 'rand-over-256'}
+    if r.random() < 0.25:
+        case['ci_as'] = 'list'
+    if R.signed:
+        case['qtype'] = r.choice(QTYPES[:4])
+    if fn == 'community_louvain':
+        case.update(kind='modularity', directed=directed)
+    return case
+
+
 def jsonable(W):
     return [[int(x) if F(x).denominator == 1 else float(x) for x in row] for row in W]
 
